@@ -2,7 +2,10 @@
 
 package middleware
 
-import "strings"
+import (
+	"strconv"
+	"strings"
+)
 
 // Pure specification functions used by the contracts in zz_contracts_verif.go.
 
@@ -42,4 +45,40 @@ func specRuleMatches(rule CORSRule, origin string, method string, requestedHeade
 	_, originOK := matchOrigin(rule.AllowedOrigins, origin)
 	return originOK && matchMethod(rule.AllowedMethods, method) &&
 		(!preflight || matchRequestedHeaders(rule.AllowedHeaders, requestedHeaders))
+}
+
+// verifHeaderListKeepsEveryHeader (ghost scenario, bounded): the parsed Access-Control-Request-Headers list holds every
+// non-empty entry of the header value - however many there are - trimmed and lower-cased, in order: no requested
+// header escapes the rule match by its position in the list.
+func verifHeaderListKeepsEveryHeader(n uint16, style uint8) bool {
+	k := int(n % 300)
+	var sb strings.Builder
+	var want []string
+	for i := 0; i < k; i++ {
+		name := "x-h" + strconv.Itoa(i)
+		if i > 0 {
+			sb.WriteString(",")
+		}
+		switch (int(style) + i) % 4 {
+		case 0:
+			sb.WriteString(name)
+		case 1:
+			sb.WriteString("  " + strings.ToUpper(name) + " ")
+		case 2:
+			sb.WriteString(" , " + name) // an empty entry in front
+		case 3:
+			sb.WriteString(name + " ")
+		}
+		want = append(want, name)
+	}
+	got := parseHeaderList(sb.String())
+	if len(got) != len(want) {
+		return false
+	}
+	for i := range want {
+		if got[i] != want[i] {
+			return false
+		}
+	}
+	return true
 }
